@@ -243,7 +243,8 @@ def damaged(rng, lang, idx):
         w2 = list(ws)
         w2[p] = table(other)[rng.randrange(2048)]
         out.append(("otherlist", sp.join(w2)))
-    for junk in (b"zzzzzz", b"", b"Abandon", ws[0].upper(), ws[0] + b"s", b"\xff\xfe", b"\xe3\x81", "𝔘".encode(), b"a\x00b"):
+    for junk in (b"zzzzzz", b"", b"Abandon", ws[0].upper(), ws[0] + b"s", b"\xff\xfe", b"\xe3\x81", "𝔘".encode(), b"a\x00b",
+                 b"lottery%20tool", b"%s", b"100%d", b"%!v(BADPREC)", b"a%", ws[0][:-1] if len(ws[0]) > 1 else b"q", ws[0][1:] if len(ws[0]) > 1 else b"q"):
         p = rng.randrange(n)
         w2 = list(ws)
         w2[p] = junk
@@ -322,4 +323,57 @@ def respell_one_char(rng, b, where):
                 return (s[:j] + rc + s[i + 1:]).encode()
             continue
         return (s[:i] + r + s[i + 1:]).encode()
+    return None
+
+
+def extreme_entropies(rng, lang, ent_len):
+    """entropies whose sentences consist of the longest (by bytes / by code points) and the shortest words of a list"""
+    t = table(lang)
+    n = ent_len // 4 * 3
+    out = []
+    for key, rev in ((lambda i: len(t[i]), True), (lambda i: len(t[i].decode()), True), (lambda i: len(t[i]), False)):
+        order = sorted(range(2048), key=key, reverse=rev)
+        top = order[:max(1, 66)]
+        for mode in ("distinct", "random-top", "single"):
+            if mode == "distinct":
+                pre = order[:n - 1]
+            elif mode == "random-top":
+                pre = [rng.choice(top) for _ in range(n - 1)]
+            else:
+                pre = [order[0]] * (n - 1)
+            # the free bits of the last word: pick the candidate giving the longest/shortest last word
+            cs = n // 3
+            best = None
+            for hi in range(1 << (11 - cs)):
+                e = entropy_from_prefix(pre, n, hi)
+                last = indices_of_entropy(e)[-1]
+                if best is None or (key(last) > key(best[1])) == rev and key(last) != key(best[1]):
+                    best = (e, last)
+            out.append(best[0])
+    return out
+
+
+def affix_pairs(lang):
+    """pairs (w1, w2) of list indices where word w2 is a proper suffix or prefix of word w1"""
+    t = table(lang)
+    byw = {w: i for i, w in enumerate(t)}
+    out = []
+    for i, w in enumerate(t):
+        for k in range(1, len(w)):
+            for part in (w[k:], w[:k]):
+                j = byw.get(part)
+                if j is not None and j != i:
+                    out.append((i, j))
+    return out
+
+
+def sentence_ending_with(rng, n, last):
+    """a valid n-word index list whose last word has index `last` (or None if the search fails)"""
+    cs = n // 3
+    for _ in range(4000):
+        pre = [rng.randrange(2048) for _ in range(n - 1)]
+        e = entropy_from_prefix(pre, n, last >> cs)
+        idx = indices_of_entropy(e)
+        if idx[-1] == last:
+            return idx
     return None
